@@ -149,7 +149,9 @@ static void s_after_acquire(int rc, struct aws_byte_buf *dest, const struct aws_
         if (!inside || overlap || dest->len != 0) {
             printf("P MONITOR inside=%d overlap=%d len=%zu\n", inside, overlap, dest->len);
         }
-        memset(dest->buffer, 0xA5, dest->capacity); /* ASan: whole buffer writable */
+        if (inside) {
+            memset(dest->buffer, 0xA5, dest->capacity); /* ASan: whole buffer writable */
+        }
         /* the library's own "inside the ring" predicate: the granted buffer, a foreign one, one straddling the end */
         {
             uint8_t foreign_mem[4];
